@@ -47,9 +47,16 @@ def plan(tier, seed):
     for i in range(0, len(pair), 6):
         out.append({'group': 'stop', 'lo': i, 'hi': min(i + 6, len(pair))})
         out.append({'group': 'signal', 'lo': i, 'hi': min(i + 6, len(pair))})
-    if tier == 'thorough':
-        for i in range(0, 6000, 20):
-            out.append({'group': 'cross', 'lo': i, 'hi': i + 20, 'seed': seed})
+    for i in range(0, 400 if tier == 'quick' else 6000, 20):
+        out.append({'group': 'cross', 'lo': i, 'hi': i + 20, 'seed': seed})
+    # a start that completes an incomplete, active watcher (respawn = false, one worker gone): the gate is the same
+    for hook in ('before_spawn', 'after_spawn'):
+        for outc in ('false', 'raise'):
+            for ign in (False, True):
+                out.append({'group': 'incomplete', 'hook': hook, 'outcome': outc, 'ignore': ign})
+    # a refused `set hooks.X = <unresolvable>, true` must not switch failures of the hook that is installed to "ignored"
+    for hook in ('before_start', 'after_start', 'before_spawn', 'after_spawn'):
+        out.append({'group': 'refused-sethook', 'hook': hook})
     return out
 
 
@@ -59,6 +66,12 @@ def run_case(spec):
         run_one(spec['h'], spec['req'], res)
         return res
     g = spec['group']
+    if g == 'incomplete':
+        incomplete_case(spec, res)
+        return res
+    if g == 'refused-sethook':
+        refused_sethook_case(spec, res)
+        return res
     if g == 'start':
         allasg = list(itertools.product(itertools.product(OUT, repeat=4), itertools.product([False, True], repeat=4)))
         for outs, igns in allasg[spec['lo']:spec['hi']]:
@@ -95,6 +108,90 @@ def run_case(spec):
                 hh['clock'] = [rnd.randint(1, 20), rnd.choice([-3600.0, 3600.0, 86400.0, -5.0])]
             run_one(hh, reqs, res)
     return res
+
+
+def _run_world(h, coro, res, spec):
+    w = simhist.new_world(h)
+    nv = len(res.viol)
+    try:
+        w.run(lambda: coro(w))
+        for v in res.viol[nv:]:
+            v['spec'] = dict(spec)
+        if w.breach():
+            res.inconclusive.append('containment breach')
+    finally:
+        w.close()
+
+
+def incomplete_case(spec, res):
+    hook, outc, ign = spec['hook'], spec['outcome'], spec['ignore']
+    # the hook lets the first two spawns through and says no (or fails) from the third on
+    h = {'watchers': [{'name': 'a', 'numprocesses': 2, 'graceful_timeout': 0.2, 'respawn': False,
+                       'hooks': {hook: ['%s@3' % outc, ign]}, 'beh': [{}]}]}
+    effective = eff(outc, ign)
+
+    @gen.coroutine
+    def go(w):
+        k = w.kernel
+        yield simhist.boot(w, h)
+        yield w.settle(30)
+        live = k.live('w_a')
+        if len(live) != 2:
+            return
+        k.kill(live[0], 9, sender='ext')
+        yield w.advance(0.2)
+        yield w.check()
+        yield w.settle(30)
+        rep = yield w.call('start', name='a', waiting=True)
+        yield w.settle(60)
+        yield w.advance(0.3)
+        st = simhist.reported_status(w, 'a')
+        alive = k.live('w_a')
+        res.obs['incomplete_start_cases'] += 1
+        if not effective:
+            if st != 'stopped' or alive:
+                res.violation('C14/start-not-aborted:%s[completing-an-active-watcher]' % hook,
+                              'start of an active watcher that had lost a worker (respawn = false): %s is effective-false '
+                              '(%s, ignore=%s) on the new spawn, but the watcher reports %s with live workers %s'
+                              % (hook, outc, ign, st, alive))
+        else:
+            if st != 'active' or len(alive) != 2:
+                res.violation('C14/start-not-completed-although-all-hooks-true[completing-an-active-watcher]',
+                              '%s is effective-true (%s, ignore=%s) but the watcher reports %s with %d workers'
+                              % (hook, outc, ign, st, len(alive)))
+        res.nontrivial(repr(('incomplete', hook, outc, ign, st, len(alive))))
+    _run_world(h, go, res, spec)
+    res.sample = {'case': 'start completes an active watcher that lost a worker', 'hook': hook, 'outcome': outc,
+                  'ignore': ign}
+
+
+def refused_sethook_case(spec, res):
+    hook = spec['hook']
+    h = {'watchers': [{'name': 'a', 'numprocesses': 1, 'graceful_timeout': 0.2, 'autostart': False,
+                       'hooks': {hook: ['raise', False]}, 'beh': [{}]}]}
+
+    @gen.coroutine
+    def go(w):
+        k = w.kernel
+        yield simhist.boot(w, h)
+        yield w.settle(30)
+        rep = yield w.call('set', name='a', options={'hooks.%s' % hook: 'no.such.module_zz.fn,true'})
+        yield w.settle(30)
+        refused = isinstance(rep, dict) and rep.get('status') == 'error'
+        res.obs['refused_sethook_requests'] += int(refused)
+        yield w.call('start', name='a', waiting=True)
+        yield w.settle(60)
+        yield w.advance(0.3)
+        st = simhist.reported_status(w, 'a')
+        alive = k.live('w_a')
+        if refused and (st != 'stopped' or alive):
+            res.violation('C14/start-not-aborted:%s[after-a-refused-set-hooks]' % hook,
+                          'set hooks.%s = <unresolvable>,true was refused (%s); the installed hook raises and its '
+                          'failures are not to be ignored, yet the start went through: status %s, live %s'
+                          % (hook, str(rep.get('reason'))[:60], st, alive))
+        res.nontrivial(repr(('refused-sethook', hook, refused, st)))
+    _run_world(h, go, res, spec)
+    res.sample = {'case': 'refused set hooks.X, then start', 'hook': hook}
 
 
 def mk(hooks, stubborn, np_, autostart=True, stop_children=False):
